@@ -231,10 +231,27 @@ Definition format_instant (i : instant) : bytes :=
   ++ pad_digits 2 (r / 3600) ++ [c_colon] ++ pad_digits 2 (r mod 3600 / 60) ++ [c_colon]
   ++ pad_digits 2 (r mod 60) ++ fmt_frac ns ++ bs "+00:00".
 
-(** NormalizeDateString: [None] = the error result *)
-Definition normalize_date (s : bytes) : option bytes :=
+(** the instants whose UTC year has four digits: 0000-01-01T00:00:00Z up to
+    (excluding) 10000-01-01T00:00:00Z *)
+Definition year_inrange_b (i : instant) : bool :=
+  (-62167219200 <=? fst i) && (fst i <? 253402300800).
+
+(** NormalizeDateString: [None] = the error result.
+    Modelled WITH the repair hooks/fix_c18_date_year_range.diff: a text whose
+    instant has a UTC year outside 0..9999 (a zone offset moves a four-digit
+    year across either end: 9999-12-31T23:00:00-05:00, 0000-01-01T00:00:00+01:00)
+    is rejected, as Time.MarshalText does; the code as it stands formats it
+    with five digits / a sign ([normalize_date_asis]), and such strings do not
+    sort chronologically (Properties/C18.v, C18_asis_year_10000_sorts_wrongly_refuted) *)
+Definition normalize_date_asis (s : bytes) : option bytes :=
   match parse_date s with
   | Some c => Some (format_instant (to_instant c))
+  | None => None
+  end.
+
+Definition normalize_date (s : bytes) : option bytes :=
+  match parse_date s with
+  | Some c => if year_inrange_b (to_instant c) then Some (format_instant (to_instant c)) else None
   | None => None
   end.
 
